@@ -325,6 +325,37 @@ fn check_cfg(c: &Cfg, seed: u64, flips: bool, st: &mut Stats, order: u64) {
             }
         }
     }
+    // the verifier replaced as a whole by values a reader might take for "absent": all zero, all ones, the two bytes swapped,
+    // either byte zeroed or set to 0xff (whenever that differs from the real value)
+    if flips && c.len > 0 {
+        let salt = crate::reference::winzipaes::salt_len(c.strength);
+        let v0 = [bytes[d0 + salt], bytes[d0 + salt + 1]];
+        let cands: [[u8; 2]; 7] = [[0, 0], [0xff, 0xff], [v0[1], v0[0]], [0, v0[1]], [v0[0], 0], [0xff, v0[1]], [v0[0], 0xff]];
+        for v in cands {
+            if v == v0 {
+                continue;
+            }
+            let mut b = bytes.clone();
+            b[d0 + salt] = v[0];
+            b[d0 + salt + 1] = v[1];
+            st.evals += 1;
+            match attempt(&b, 1, Some(&c.pw), 0) {
+                Attempt::InvalidPassword | Attempt::OpenErr(_) => st.class("verifier-replaced:rejected-at-open"),
+                Attempt::ReadErr(_) => st.class("verifier-replaced:read-error"),
+                Attempt::Panic(p) => st.viol(format!("panic/{}", panic_site(&p)), format!("{what}: verifier replaced by {v:02x?}: {p}"), case(json!({"verifier": v})), order),
+                Attempt::PasswordRequired => st.viol("flip/password-required", format!("{what}: unexpected password-required"), case(json!({"verifier": v})), order),
+                Attempt::Clean(x) => {
+                    st.class("TAMPERED-READ-COMPLETED");
+                    st.viol(
+                        format!("tampering-undetected/verifier-replaced/AE-{}/m{}", c.version, c.method),
+                        format!("{what}: password verifier {v0:02x?} replaced by {v:02x?}, correct password: the read completed with {} bytes", x.len()),
+                        case(json!({"verifier": v})),
+                        order,
+                    );
+                }
+            }
+        }
+    }
     // two simultaneous changes (bound 2) on one small stored entry per (version, strength): every pair of bits of the
     // authentication code, and one ciphertext bit together with every value of every authentication-code byte
     if flips && c.len == 17 && c.method == 0 && c.pw.len() <= 4 {
